@@ -112,39 +112,7 @@ theorem fdiv_e3 (u : Nat) (h : u < 1000000) : Py.ffloordiv ((u : Int) * 1000) 10
   rw [show ((u : Int) * 1000) / 1000 = (u : Int) by omega]
   exact fexact_ok _ (by omega)
 
-/-- the translated method with the float intrinsics evaluated (all within the exact range) -/
-theorem timestamp_to_json_frac_unfold (u : Nat) (h : u < 1000000) :
-    Src.timestamp_to_json_frac (u : Int) =
-      if (u : Int) * 1000 = 0 then .ok none
-      else if ((u % 1000 : Nat) : Int) * 1000 = 0 then .ok (some (3, ((u / 1000 : Nat) : Int)))
-      else .ok (some (6, (u : Int))) := by
-  unfold Src.timestamp_to_json_frac
-  rw [fmul_us u h, ok_bind]
-  simp only []
-  rw [fmod_e9 u h, ok_bind, fmod_e6 u h, ok_bind, fdiv_e6 u h, ok_bind, fmod_e3 u, ok_bind, fdiv_e3 u h, ok_bind]
-  simp only [decide_eq_true_eq, Py.fmtFrac0, Py.fmtFrac, if_true]
-
-/-- the float arithmetic of `timestamp_to_json` as written (`nanos = dt.microsecond * 1e3`,
-    `nanos % 1e9 == 0`, `nanos % 1e6 == 0`, `int(nanos // 1e6)`, …) never leaves the exact
-    range of doubles, never reaches the `{nanos:09d}` branch (which would raise), and
-    yields the model's `tsFrac` — for every value `dt.microsecond` can have (0 ≤ u < 10^6:
-    the invariant of `datetime`; beyond it `nanos % 1e9` wraps, so the bound is needed) -/
-theorem timestamp_to_json_frac_eq (u : Nat) (h : u < 1000000) :
-    Src.timestamp_to_json_frac (u : Int) = .ok ((tsFrac u).map fun p => ((p.1 : Int), (p.2 : Int))) := by
-  rw [timestamp_to_json_frac_unfold u h]
-  unfold tsFrac
-  by_cases h0 : u = 0
-  · have h0' : (u : Int) * 1000 = 0 := by omega
-    rw [if_pos h0', if_pos h0]
-    rfl
-  · have h0' : ¬ ((u : Int) * 1000 = 0) := by omega
-    rw [if_neg h0', if_neg h0]
-    by_cases h1 : u % 1000 = 0
-    · have h1' : ((u % 1000 : Nat) : Int) * 1000 = 0 := by omega
-      rw [if_pos h1', if_pos h1]
-      rfl
-    · have h1' : ¬ (((u % 1000 : Nat) : Int) * 1000 = 0) := by omega
-      rw [if_neg h1', if_neg h1]
-      rfl
+/- (the fragment `timestamp_to_json_frac` is gone: the whole method is tied in SrcTieLeaf.lean, which uses the float
+   lemmas above) -/
 
 end Bp.SrcTie
